@@ -19,6 +19,12 @@ fn main() {
                 Ok(c) => if c.max_size == ms as usize && c.timeouts.wait.is_none() && c.timeouts.create.is_none() && c.timeouts.recycle.is_none() && matches!(c.queue_mode, QueueMode::Fifo) { println!("HOLDS {:?}", c) } else { println!("VIOLATED defaults: {:?}", c) }
             }
         }
+        "missing" => {
+            match missing_max_size(a[2] == "1", a[3] == "1") {
+                Err(_) => println!("HOLDS rejected"),
+                Ok(c) => if c.max_size == PoolConfig::default().max_size { println!("HOLDS {:?}", c) } else { println!("VIOLATED a document without max_size is accepted with max_size {} (documented default: {})", c.max_size, PoolConfig::default().max_size) }
+            }
+        }
         _ => panic!("usage"),
     }
 }
